@@ -257,22 +257,19 @@ class PollExecutor(CanCustomizeBind, Executor):
             )
             return False
 
-    def _run_poll_fn(self):
+    def _poll_descriptors_now(self):
         with self._lock:
-            descriptors = [d for (_, d) in self._poll_descriptors]
+            return [d for (_, d) in self._poll_descriptors]
 
-        try:
-            now = monotonic()
-            return self._poll_fn(descriptors)
-        except Exception as e:
-            self._log.debug("Poll function failed", exc_info=True)
+    def _poll_fn_done(self, descriptors, error, elapsed):
+        if error is not None:
+            self._log.debug("Poll function failed: %r", error)
             metrics.POLL_ERROR.labels(executor=self._name).inc()
             # If poll function fails, then every future
             # depending on the poll also immediately fails.
-            [d.yield_exception(e) for d in descriptors]
-        finally:
-            metrics.POLL_TOTAL.labels(executor=self._name).inc()
-            metrics.POLL_TIME.labels(executor=self._name).inc(monotonic() - now)
+            [d.yield_exception(error) for d in descriptors]
+        metrics.POLL_TOTAL.labels(executor=self._name).inc()
+        metrics.POLL_TIME.labels(executor=self._name).inc(elapsed)
 
     def shutdown(self, wait=True, **_kwargs):
         if self._shutdown():
@@ -283,6 +280,14 @@ class PollExecutor(CanCustomizeBind, Executor):
                 self._log.debug("Join poll thread...")
                 self._poll_thread.join(MAX_TIMEOUT)
                 self._log.debug("Joined poll thread.")
+
+
+def _call_poll_fn(poll_fn, descriptors):
+    # -> (result of the poll function, None) or (None, the exception it raised)
+    try:
+        return (poll_fn(descriptors), None)
+    except Exception as ex:  # pylint: disable=broad-except
+        return (None, ex)
 
 
 @executor_loop
@@ -297,7 +302,17 @@ def _poll_loop(executor_ref):
 
         executor._log.debug("Polling...")
 
-        next_sleep = executor._run_poll_fn()
+        # The poll function is called from this frame, not from a method of
+        # the executor: an exception it raises ends up, with its traceback,
+        # in the futures it fails. The frames reachable from that traceback
+        # must not hold the executor, or a failed future kept by the user
+        # would keep the executor (hence this thread) alive; the only
+        # reference here is the local, which is deleted below.
+        descriptors = executor._poll_descriptors_now()
+        now = monotonic()
+        (next_sleep, error) = _call_poll_fn(executor._poll_fn, descriptors)
+        executor._poll_fn_done(descriptors, error, monotonic() - now)
+        del descriptors, error
         if not (isinstance(next_sleep, int) or isinstance(next_sleep, float)):
             next_sleep = executor._default_interval
 
